@@ -318,6 +318,16 @@ fn stream() -> Vec<u8> {
     f.bytes()
 }
 
+/// three Ethernet / IPv4 / UDP frames
+fn layer_stream() -> Vec<u8> {
+    let mut b = vec![0x66, 0x77, 0x88, 0x99, 0xaa, 0xbb, 0x00, 0x11, 0x22, 0x33, 0x44, 0x55, 0x08, 0x00];
+    b.extend_from_slice(&[0x45, 0, 0, 36, 0, 1, 0, 0, 64, 17, 0, 0, 10, 0, 0, 1, 10, 0, 0, 2]);
+    b.extend_from_slice(&[0x04, 0xd2, 0x00, 0x35, 0, 16, 0, 0]);
+    b.extend_from_slice(b"payload!");
+    let f = PcapFile { hdr: GHdr { magic: MAGIC_US, major: 2, minor: 4, thiszone: 0, sigfigs: 0, snaplen: 65535, linktype: 1 }, recs: (0..3).map(|i| Rec { sec: i, usec: i, wirelen: b.len() as u32, data: b.clone() }).collect() };
+    f.bytes()
+}
+
 fn filter_programs() -> Vec<(String, Option<i32>)> {
     let mut v: Vec<(String, Option<i32>)> = Vec::new();
     let actions = [
@@ -504,6 +514,55 @@ fn filters(ctx: &mut Ctx) {
             }
         }
     }
+    // cycles among the protocol layers of the current packet (the layer setters store any object) walked by `$n`
+    // with indices of every kind, compared, matched, re-assigned; written out again (a finding of its own).
+    // Not included: hashing a layer (a layer is not a valid key, and the KeyError message prints it) and str()/print.
+    if ctx.shard == 3 % e2e_shards {
+        let input = layer_stream();
+        let cycles = ["e.ipv4 = e;", "i.udp = e; e.ipv4 = i;", "e.ipv4 = $0;", "i.udp = i;", "e.vlan = e; e.ipv6 = i;", ""];
+        let indices = ["0 - 1", "0 - 2", "-9223372036854775807 - 1", "0", "3", "9", "10", "11", "255", "256", "4294967296", "9223372036854775807", "1.5", "null", "\"1\"", "true"];
+        let uses = [
+            "e == i; e != i; e == e; $3 == $2; $1 == e;",
+            "let f = $1; f.ipv4 = f; f == e; f != i;",
+            "match e { 1 => 1, _ => 2 }; match i { 1..3 => 1, _ => 2 };",
+            "if e { 1 } else { 2 }; !e; e && i; i || e;",
+            "e.ipv4 = null; e.ipv4 = 5; e.ipv4 = i;",
+            "let p = $0; p.eth; e.type; i.ttl; i.src; e.dst;",
+            "let arr = [e, i, $0]; len(arr); first(arr) == last(arr); push(arr, arr[0]);",
+            "$1; $2; $3; $4; $5; $10;",
+        ];
+        let mut progs: Vec<(String, &str)> = Vec::new();
+        for cyc in cycles {
+            for idx in indices {
+                progs.push((format!("let n = {};\n@ NP < 3 {{\nlet e = $1; let i = $2;\n{}\nlet inner = $n;\neprintln(\"ok\");\n}}\n", idx, cyc), "layer-cycle"));
+            }
+            for u in uses {
+                progs.push((format!("@ NP < 3 {{\nlet e = $1; let i = $2;\n{}\n{}\neprintln(\"ok\");\n}}\n", cyc, u), "layer-cycle"));
+            }
+            if !cyc.is_empty() {
+                progs.push((format!("@ NP < 3 {{\nlet e = $1; let i = $2;\n{}\npcap_write(pcap_open(\"/dev/null\", \"w\"), $0);\n}}\n", cyc), "selfref:layer-serialise"));
+                progs.push((format!("@ NP < 3 {{\nlet e = $1; let i = $2;\n{}\n}}\n@ true\n", cyc), "selfref:layer-serialise-output"));
+            }
+        }
+        for (k, (src, kind)) in progs.iter().enumerate() {
+            if ctx.tier == Tier::Quick && *kind == "layer-cycle" && (k as u64 + ctx.seed) % 2 != 0 {
+                continue;
+            }
+            ctx.case(hash_str(src), true);
+            ctx.class("layer-cycle");
+            let silent = *kind != "selfref:layer-serialise-output";
+            let mut args = vec![];
+            if silent {
+                args.push("-s".to_string());
+            }
+            args.push(e2e::script_file("c08-layers.p2", src));
+            let r = e2e::run(Opts::new(args).stdin(Stdin::Bytes(input.clone())));
+            if let Some(c) = r.crashed() {
+                let sig = if kind.starts_with("selfref:") { "selfref:layer-serialise".to_string() } else { format!("layer-cycle:{}", e2e::crash_signature(&c)) };
+                ctx.report(Violation::new("filters", sig, format!("protocol layers that contain themselves ({}): {}\n{}", kind, c, src), json!({"layer_cycle": true, "src": src, "silent": silent, "kind": kind})));
+            }
+        }
+    }
     // sleep with a negative duration must return (a runtime error or at once), not sleep for ever
     if ctx.shard == 0 {
         ctx.case(hash_str("sleep-negative"), true);
@@ -544,6 +603,20 @@ pub fn replay(section: &str, case: &Value, ctx: &mut Ctx) {
     let src = case["src"].as_str().unwrap_or("");
     if case.get("packet_stream").is_some() {
         // the stream is rebuilt by the section itself on every run; nothing to replay separately
+        return;
+    }
+    if case.get("layer_cycle").is_some() {
+        let mut args = vec![];
+        if case["silent"].as_bool().unwrap_or(true) {
+            args.push("-s".to_string());
+        }
+        args.push(e2e::script_file("c08-layers.p2", src));
+        let r = e2e::run(Opts::new(args).stdin(Stdin::Bytes(layer_stream())));
+        if let Some(c) = r.crashed() {
+            let kind = case["kind"].as_str().unwrap_or("");
+            let sig = if kind.starts_with("selfref:") { "selfref:layer-serialise".to_string() } else { format!("layer-cycle:{}", e2e::crash_signature(&c)) };
+            ctx.report(Violation::new(section, sig, c, case.clone()));
+        }
         return;
     }
     if case.get("selfref").is_some() {
